@@ -134,7 +134,7 @@ impl<R: io::Read> Reader<R> {
         );
         let attribute_re = Regex::new(&r).unwrap();
         Records {
-            inner: self.inner.deserialize(),
+            inner: self.inner.records(),
             attribute_re,
             value_delim: vdelim as char,
         }
@@ -280,7 +280,7 @@ impl Serialize for Phase {
 
 /// An iterator over the records of a GFF file.
 pub struct Records<'a, R: io::Read> {
-    inner: csv::DeserializeRecordsIter<'a, R, GffRecordInner>,
+    inner: csv::StringRecordsIter<'a, R>,
     attribute_re: Regex,
     value_delim: char,
 }
@@ -290,7 +290,21 @@ impl<'a, R: io::Read> Iterator for Records<'a, R> {
 
     fn next(&mut self) -> Option<csv::Result<Record>> {
         self.inner.next().map(|res| {
-            res.map(
+            // A GFF record has exactly nine columns. Deserialising into the nine-element tuple alone
+            // silently ignores additional columns, so the column count is checked first.
+            res.and_then(|row| {
+                if row.len() != 9 {
+                    return Err(csv::Error::from(io::Error::new(
+                        io::ErrorKind::InvalidData,
+                        format!(
+                            "found record with {} fields, but a GFF record has 9 fields",
+                            row.len()
+                        ),
+                    )));
+                }
+                row.deserialize::<GffRecordInner>(None)
+            })
+            .map(
                 |(
                     seqname,
                     source,
